@@ -43,6 +43,7 @@ void run_case(verif::Src& s, verif::Stats& st, const bool literal)
     SetMockTime(REGTEST_GENESIS_TIME + 3600);
     ChainSimOpts o;
     o.immediate_signals = false; // see kits/walletsim.h
+    o.extra_args = {"-acceptnonstdtxn=0"}; // regtest accepts non-standard transactions by default; the statement's test-accept clause is about a node with standardness rules (dust, ...)
     auto simp = std::make_unique<ChainSim>(o);
     ChainSim& sim = *simp;
     LoadWalletBase(sim, 104);
@@ -77,9 +78,13 @@ void run_case(verif::Src& s, verif::Stats& st, const bool literal)
         for (unsigned k = 0; k < nout; ++k) {
             CAmount v = s.pick<CAmount>({1000000, 100000, 10000000, 100000000, 546, 1000, 294, 5000, 30000, 250000000});
             if (s.chance(60)) v += s.range<int>(-3, 200);
-            v = std::clamp<CAmount>(v, 294, rest / 3);
             CScript spk = wallet_script();
-            if (auto info = ws.ModelScriptInfo(spk)) funded_types.insert(info->type);
+            CAmount dust = 546; // standard dust thresholds at 3 sat/vB by output type (the funding transaction itself must be standard)
+            if (auto info = ws.ModelScriptInfo(spk)) {
+                funded_types.insert(info->type);
+                dust = info->type == OutputType::BECH32 ? 294 : info->type == OutputType::BECH32M ? 330 : info->type == OutputType::P2SH_SEGWIT ? 540 : 546;
+            }
+            v = std::clamp<CAmount>(v, dust, rest / 3);
             outs.emplace_back(v, spk);
             rest -= v;
         }
@@ -87,7 +92,8 @@ void run_case(verif::Src& s, verif::Stats& st, const bool literal)
         outs.emplace_back(rest, P2WSH_OP_TRUE);
         auto mtx = ws.MakeTx({coin}, outs);
         VCHECK(mtx.has_value(), "c41.harness", "cannot build funding tx");
-        ws.Submit(MakeTransactionRef(*mtx));
+        auto fres = ws.Submit(MakeTransactionRef(*mtx));
+        VCHECK(fres.m_result_type == MempoolAcceptResult::ResultType::VALID, "c41.harness", "funding transaction rejected:", fres.m_state.ToString());
         // confirm now (with everything pending), later, or never (stays an untrusted unconfirmed receive)
         unsigned how = s.range<unsigned>(0, 3);
         L = ws.Ledger();
